@@ -90,6 +90,6 @@ func verifC11QuantileReach() {
 		m[verifQuantileBounds[b]] = []*collections.FloatArray{fa}
 	}
 	r, _ := QuantileCall(0.5, m)
-	verifObserve("quantile", c, math.Float64bits(r.GetValue(0)))
+	verifObserve("quantile", int(c), math.Float64bits(r.GetValue(0)))
 	verifAssert(r.GetValue(0) != 1.5, "reach")
 }
